@@ -1,6 +1,9 @@
 import Driver.J
 import Driver.C17
 import Driver.Run
+import Driver.Load
+import Driver.Bind
+import Driver.LexDrv
 open Lean
 
 partial def loop (h : IO.FS.Stream) (out : IO.FS.Stream) (f : Json → Json) : IO Unit := do
@@ -16,6 +19,9 @@ partial def loop (h : IO.FS.Stream) (out : IO.FS.Stream) (f : Json → Json) : I
 def generic (g : DrvRun.GOracle) (j : Json) : Json :=
   match J.str (J.get j "k") with
   | "run" => DrvRun.run g j
+  | "load" => DrvLoad.load g j
+  | "bind" => DrvBind.bind j
+  | "lex" => DrvLex.lex j
   | "lncol" => DrvC17.lncol j
   | k => J.obj [("id", J.get j "id"), ("agree", false), ("spec", true), ("note", s!"unknown kind {k}")]
 
